@@ -29,7 +29,8 @@ ASSUMPTIONS = [
     "descriptions are not compared here (C01/C02 do); hops use the ReST docstring style",
 ]
 CORE_T = ("int", "float", "str", "bool", "optional", "literal", "complex")
-CORE_D = ("int", "negint", "zero", "float", "negfloat", "smallfloat", "bool", "str", "strspace", "strtilde", "imag")
+CORE_D = ("int", "negint", "zero", "float", "negfloat", "smallfloat", "bool", "str", "strspace", "strtilde", "imag",
+          "strodd")
 EXHAUSTIVE = {"what": "all conversion sequences of length 1..3 over 5 formats for every generated interface",
               "sequences_per_interface": 155}
 
@@ -42,8 +43,10 @@ def gen_case(ctx, stream, idx):
     r = ctx.rng(stream, idx)
     if stream == "core":
         return irgen.rand_ir(r, nparams=r.randint(1, 5), type_kinds=CORE_T, default_kinds=CORE_D, all_defaults=True,
-                             with_return=False)
-    return irgen.rand_ir(r, nparams=r.randint(1, 4), type_kinds=CORE_T, default_kinds=CORE_D + ("absent",),
+                             with_return=False, doc_kinds=("plain", "plain", "punct"))
+    # probe: required parameters, and str defaults with a double quote / backslash / backtick (which the docstring hop
+    # cannot carry - a recorded finding - but every other hop must)
+    return irgen.rand_ir(r, nparams=r.randint(1, 4), type_kinds=CORE_T + ("str",), default_kinds=CORE_D + ("absent", "strbad"),
                          with_return=r.random() < 0.3)
 
 
@@ -83,8 +86,10 @@ def classify(seq, d, start_shape):
     if mech is None and where == "hop" and fmt == "docstring" and how == "TypeError" and "absent" in start_shape and \
             "function" in seq:
         mech = "docstring.none-default-becomes-text"  # None marker under a scalar type: int(None) raises
-    if mech is None and where in ("returns", "return") and fmt in ("argparse",):
-        mech = None
+    if mech is None and fmt == "docstring" and "strbad" in start_shape and (
+            (where == "param" and dk == "strbad" and field == "default")
+            or (where == "hop" and how in ("SyntaxError", "ValueError"))):
+        mech = "docstring.str-default-with-quote-backslash-backtick"
     if mech is not None:
         return mech + "|" + generic + "," + detail
     return generic + "|" + detail
